@@ -6,4 +6,8 @@ ENTRIES = {
     text="Seeded Hypothesis search over rotations concentrated next to angle 0 and pi, translations over 15 and scales over 8 orders of magnitude, and near-miss matrices at controlled distance from the groups; every helper is compared with an independent reference (Rodrigues, atan2 angle, explicit inverses) and with the group/metric laws. Exploration: shows the laws on 2e4 (quick) / 1e6 (thorough) generated elements, cannot show absence.",
     design_ref="5/C09", technique="property-based testing (Hypothesis) against reference model + algebraic laws",
     note="Trusted: vf/refmodel.py conversions; tolerances 1e-9 (exp/log/angle), 64 eps (1+|t|) for SE(3); the band 1e-8..1e-3 around the groups is evo's documented tolerance region and is not judged."),
+ "C05": dict(
+    text="Seeded Hypothesis search over pairs of stamp vectors on integer lattices (exact dyadic lattice where a difference equal to max_diff is decidable, inexact decimal lattices with an ambiguity margin), bursty/contested counterparts, offsets, both length orders and storage modes, plus Philox-expanded pairs up to 5000 stamps; the returned pair of trajectories is judged by a validity predicate (copies of input poses, order, bound, nearest counterpart, completeness, uniqueness, refusal, inputs untouched) evaluated in exact rational arithmetic.",
+    design_ref="5/C05", technique="property-based testing (Hypothesis) with a validity-predicate oracle in exact rational arithmetic",
+    note="Trusted: the predicate in vf/checks/c05.py; ties in 'nearest' and contested counterparts accept any valid outcome; bulk cases use float64 with an 8-ulp margin."),
 }
